@@ -579,6 +579,11 @@ func specMapped(m *mappedFile) bool {
 //@ contract EncodeStack
 //@   ensures len(result) <= maxNameLen
 //@   at call cutLastDot#1: after ghost $nopath = result0 == ""
+// The import path compared for the ditto mark is cut from the whole symbol at its
+// last dot - the same cut DecodeStack applies to the rendered line (the offsets
+// after the colon contain no dot), so encoder and decoder agree on what a ditto
+// stands for.
+//@   at call cutLastDot#1: assert arg0 == fr.Function
 //@   at call Sprintf#1: assert ($nopath ==> path == "") && (path == "\"" ==> lastImport != "")
 //@   at call Sprintf#2: assert ($nopath ==> path == "") && (path == "\"" ==> lastImport != "")
 //@   modifies $nopath
